@@ -1062,3 +1062,84 @@ Theorem tr_bufs_findroom_model {L} m t (s : st L) d fuel : tab_at m t -> tab_ok 
 Proof.
   intros Hm Ht Hr Hf. rewrite <- (rep_findroom m t s Hr). apply (tr_bufs_findroom m t d fuel Hm Ht (rep_lbs m t _ Hr) Hf).
 Qed.
+
+(* ------------------------------------------------------------------ bufs_switch against the model (C20_switch_permutes on the C text) *)
+Lemma save0_ints t r o tp l td : Forall slot_ints t -> int_ok r -> int_ok o -> int_ok tp -> int_ok l -> Forall slot_ints (save0 t r o tp l td).
+Proof.
+  intros H Ir Io Itp Il. destruct t as [|s rest]; [constructor|]. inversion H as [|? ? Hs Hr]; subst. cbn [save0]. constructor; [|exact Hr].
+  destruct Hs as (_ & _ & _ & _ & Hid & _). unfold slot_ints. cbn [set_cs_view cs_row cs_off cs_top cs_left cs_id cs_td].
+  split; [exact Ir|]. split; [exact Io|]. split; [exact Itp|]. split; [exact Il|]. split; [exact Hid|]. apply wrap_I16_range.
+Qed.
+Lemma rep_path_ptr {L} m t (l : list (slot L)) : tab_rep m t l -> Forall (fun s => ptr_val (cs_path s)) t.
+Proof.
+  unfold tab_rep. induction 1 as [|cs x t l H Hr IH]; constructor; [|exact IH].
+  destruct x as [b|]; cbn [slot_rep] in H.
+  - destruct H as (Hp & _). inversion Hp; subst. right. eauto.
+  - destruct H as (-> & _). left. reflexivity.
+Qed.
+Lemma save0_paths t r o tp l td : map cs_path (save0 t r o tp l td) = map cs_path t.
+Proof. destruct t; reflexivity. Qed.
+
+Theorem tr_bufs_switch_model {L Op Out} (Lo : lops L Op Out) ext m t (s : st L) i b0 m2 u m' d fuel :
+  tab_at m t -> tab_ok t -> tab_rep m t (bufs s) -> Forall slot_ints t ->
+  let r := v_row (xv s) in let o := v_off (xv s) in let tp := v_top (xv s) in let l := v_left (xv s) in let td := v_td (xv s) in
+  globs_at m r o tp l td -> int_ok r -> int_ok o -> int_ok tp -> int_ok l -> short_ok td ->
+  (i < 16)%nat -> nth_error (bufs s) 0 = Some (Some b0) ->
+  let t1 := save0 t r o tp l td in
+  let m1 := upd (m ++ [repeat VUndef 41]) G_bufs (tab_cells t1) in
+  bump_call ext fuel d (cs_lb (nths t 0)) m1 m2 -> length m2 = length m1 ->
+  same_on [G_bufs; length m; G_xrow; G_xoff; G_xtop; G_xleft; G_xtd] m1 m2 ->
+  let s' := bufs_switch Lo s i in
+  let t2 := switch t1 i in
+  let m5 := set_globs (upd (upd m2 (length m) (slot_cells (nths t1 i))) G_bufs (tab_cells t2))
+                      (v_row (xv s')) (v_off (xv s')) (v_top (xv s')) (v_left (xv s')) (v_td (xv s')) in
+  ext X_reg_put [VInt 37; path_arg (cs_path (nths t2 0)); VInt 0] m5 = Ok (u, m') ->
+  callx ext cprog fuel (S (S (S d))) F_bufs_switch [VInt (Z.of_nat i)] m = Ok (VUndef, m') /\
+  tab_at m5 t2 /\ tab_rep m t2 (bufs s') /\
+  globs_at m5 (v_row (xv s')) (v_off (xv s')) (v_top (xv s')) (v_left (xv s')) (v_td (xv s')) /\
+  (forall b, (b < length m)%nat -> ~ In b [G_bufs; G_xrow; G_xoff; G_xtop; G_xleft; G_xtd] -> nth_error m5 b = nth_error m2 b).
+Proof.
+  intros Hm Ht Hrep Hints r o tp l td Hg Ir Io Itp Il Itd Hi H0 t1 m1 Hbump Hlen Hsame s' t2 m5 Hext.
+  assert (Hv : xv s = mkview r o tp l td) by (destruct (xv s); reflexivity).
+  destruct (rep_switch Lo m t s r o tp l td b0 i Hrep Hv Itd H0) as [Hrep2 Hxv]. fold t1 in Hrep2, Hxv. fold t2 in Hrep2, Hxv. fold s' in Hrep2, Hxv.
+  pose proof Ht as [Hl Hs].
+  assert (Ht1 : tab_ok t1) by (apply tab_ok_save0; exact Ht).
+  assert (Hl1 : length t1 = 16%nat) by (destruct Ht1; assumption).
+  assert (Hsx : nths t2 0 = nths t1 i) by (apply switch_nth0; lia).
+  set (sx := nths t1 i) in *.
+  assert (Hvx : view_of sx = xv s') by (rewrite Hxv, Hsx; reflexivity).
+  assert (Isx : slot_ints sx).
+  { pose proof (save0_ints t r o tp l td Hints Ir Io Itp Il) as H. fold t1 in H. rewrite Forall_forall in H. apply H. apply nth_In. lia. }
+  assert (Psx : ptr_val (cs_path sx)).
+  { pose proof (rep_path_ptr m t _ Hrep) as H. rewrite Forall_forall in H.
+    assert (Hin : In (cs_path sx) (map cs_path t)) by (rewrite <- (save0_paths t r o tp l td); apply in_map; apply nth_In; fold t1; lia).
+    apply in_map_iff in Hin. destruct Hin as [c [<- Hc]]. apply H. exact Hc. }
+  assert (Itd' : int_ok td) by (unfold int_ok, short_ok in *; lia).
+  assert (Hlb : ptr_val (cs_lb (nths t 0))).
+  { pose proof (rep_lbs m t _ Hrep) as H. apply (lbs_nth t 0 H). lia. }
+  assert (Hm5 : m5 = set_globs (upd (upd m2 (length m) (slot_cells sx)) G_bufs (tab_cells t2)) (cs_row sx) (cs_off sx) (cs_top sx) (cs_left sx) (cs_td sx)).
+  { unfold m5. rewrite <- Hvx. reflexivity. }
+  rewrite Hsx, Hm5 in Hext.
+  split; [apply (tr_bufs_switch ext m t r o tp l td i m2 u m' d fuel Hm Ht Hg Ir Io Itp Il Itd' Hi Hlb Hbump Hlen Hsame Isx Psx Hext)|].
+  (* what the memory handed to reg_put holds *)
+  assert (Hb : (G_bufs < length m)%nat) by (apply nth_error_Some; unfold tab_at in Hm; congruence).
+  assert (Hl2 : length m2 = S (length m)).
+  { rewrite Hlen. unfold m1. rewrite upd_length by (rewrite app_length; cbn [length]; lia). rewrite app_length. cbn [length]. lia. }
+  set (m4 := upd (upd m2 (length m) (slot_cells sx)) G_bufs (tab_cells t2)) in *.
+  assert (Hb3 : (G_bufs < length (upd m2 (length m) (slot_cells sx)))%nat) by (rewrite upd_length by lia; lia).
+  assert (Hg4 : globs_at m4 r o tp l td).
+  { assert (Hx : forall g v, In g [G_xrow; G_xoff; G_xtop; G_xleft; G_xtd] -> cell_at m g v -> cell_at m4 g v).
+    { intros g v Hin Hc. pose proof (cell_lt _ _ _ Hc) as Lg. unfold cell_at, m4.
+      rewrite mem_upd_other by (try exact Hb3; destruct Hin as [<-|[<-|[<-|[<-|[<-|[]]]]]]; discriminate).
+      rewrite mem_upd_other by (try lia).
+      rewrite (Hsame g) by (right; right; exact Hin). unfold m1.
+      rewrite mem_upd_other by (try (rewrite app_length; cbn [length]; lia); destruct Hin as [<-|[<-|[<-|[<-|[<-|[]]]]]]; discriminate).
+      rewrite nth_error_app_old by exact Lg. exact Hc. }
+    destruct Hg as [G1 G2 G3 G4 G5]. constructor; apply Hx; try assumption; cbn; tauto. }
+  rewrite Hm5. rewrite <- Hvx. cbn [view_of v_row v_off v_top v_left v_td].
+  split; [|split; [exact Hrep2|split; [apply (globs_set m4 r o tp l td); exact Hg4|]]].
+  - unfold tab_at. rewrite (set_globs_other m4 _ _ _ _ _ r o tp l td G_bufs Hg4) by discriminate. unfold m4. apply mem_upd_same. exact Hb3.
+  - intros b Hbl Hnin. rewrite (set_globs_other m4 _ _ _ _ _ r o tp l td b Hg4) by (intro E; apply Hnin; subst b; cbn; tauto).
+    unfold m4. rewrite mem_upd_other by (try exact Hb3; intro E; apply Hnin; subst b; cbn; tauto).
+    rewrite mem_upd_other by lia. reflexivity.
+Qed.
